@@ -1811,4 +1811,59 @@ theorem safeGuard_one_param (T : ATable) (xs : List (List Rat)) (h1 : T.h.length
   have : (danger T.basePt T.h x).drop 1 = [] := List.drop_eq_nil_of_le (by omega)
   simp [this] at hany
 
+/-! ### decidable hypotheses, error branch, assignment without indices -/
+
+theorem wfB_iff (axes : List Axis) : wfB axes = true ↔ WF axes := by
+  unfold wfB WF
+  simp only [List.all_eq_true, Bool.and_eq_true, decide_eq_true_eq]
+
+theorem inBoxB_iff (axes : List Axis) (q : Query) : q.inBoxB axes = true ↔ q.inBox axes := by
+  unfold Query.inBoxB Query.inBox
+  simp only [List.all_eq_true, Bool.and_eq_true, decide_eq_true_eq]
+
+theorem axisOkB_iff (d : Nat) (q : Query) : q.axisOkB d = true ↔ q.axisOk d := by
+  cases q <;> simp [Query.axisOkB, Query.axisOk]
+
+theorem outside_error (T : Table) (q : Query) (x : List Rat) (hx : x ∈ q.points)
+    (hout : inBox T.axes x = false) : T.answer q = .error .valueError := by
+  have hall : q.points.all (inBox T.axes) = false := by
+    rw [Bool.eq_false_iff]
+    intro h
+    rw [List.all_eq_true] at h
+    rw [h x hx] at hout
+    cases hout
+  cases q with
+  | interp xs =>
+    simp only [Query.points] at hall
+    simp [Table.answer, Table.interpolate, hall]
+  | grad xs k =>
+    simp only [Query.points] at hall
+    simp [Table.answer, Table.gradient, hall]
+
+/-- `_find_base_vertex` recovers the index of a grid node from its coordinates -/
+theorem floorIdx_coordOf : ∀ (bp h : List Rat) (i : Coord), bp.length = h.length → i.length = h.length →
+    (∀ hk ∈ h, hk ≠ 0) → floorIdx bp h (coordOf bp h i) = i
+  | [], [], [], _, _, _ => rfl
+  | _ :: _, [], _, h, _, _ => by simp at h
+  | [], _ :: _, _, h, _, _ => by simp at h
+  | _, _ :: _, [], _, h, _ => by simp at h
+  | [], [], _ :: _, _, h, _ => by simp at h
+  | b :: bp, h :: hs, i :: is, h1, h2, hne => by
+    have hh : h ≠ 0 := hne h List.mem_cons_self
+    have e : (b + h * (i : Rat) - b) / h = (i : Rat) := by field_simp; ring
+    simp only [coordOf, floorIdx, e, Rat.floor_intCast]
+    rw [floorIdx_coordOf bp hs is (by simpa using h1) (by simpa using h2)
+      (fun hk hm => hne hk (List.mem_cons_of_mem _ hm))]
+
+theorem assignNoIdx_eq (T : ATable) (hg : Geo T) (vals : List (List Rat)) (inds : List Coord)
+    (hl : ∀ i ∈ inds, i.length = T.h.length) :
+    assignNoIdx T vals (inds.map (coordOf T.basePt T.h)) = assign T vals (inds.map (coordOf T.basePt T.h)) inds := by
+  unfold assignNoIdx
+  congr 1
+  rw [List.map_map]
+  conv => rhs; rw [← List.map_id inds]
+  apply List.map_congr_left
+  intro i hi
+  exact floorIdx_coordOf _ _ i hg.hb (hl i hi) hg.hne
+
 end PorepyVerif.C41
